@@ -523,6 +523,25 @@ func Send[T any](ch chan<- T, v T) {
 	st.queue = append(st.queue, reflect.ValueOf(v))
 }
 
+// TrySend sends without blocking; it reports whether the value was queued.
+func TrySend[T any](ch chan<- T, v T) bool {
+	if active == nil {
+		select {
+		case ch <- v:
+			return true
+		default:
+			return false
+		}
+	}
+	st := stateOf(ch)
+	point("trysend", nil)
+	if st.closed || len(st.queue) >= max(st.cap, 1) {
+		return false
+	}
+	st.queue = append(st.queue, reflect.ValueOf(v))
+	return true
+}
+
 // Case is one arm of a Select.
 type Case struct {
 	ready func() bool
